@@ -22,6 +22,7 @@ type C11Case struct {
 	Traffic       bool    `json:"traffic"` // RPC traffic concurrent with the writes
 	ViaRPC        bool    `json:"viaRpc"`  // main plan issued over the plugin RPC instead of the side channel
 	JitterUs      int     `json:"jitterUs"`
+	PluginHook    string  `json:"pluginHook"` // VERIF_HOOK for the plugin process, e.g. grpcstdio.beforeSend:sleep:2
 }
 
 type C11Stream struct {
